@@ -693,3 +693,5 @@ seed('c02-plannerdata-decouple-early-return', 'C02', [(CPDC, "    ompl::base::Pl
 seed('c09-decouple-erases-clone-key', 'C09', [(PDC, "            stateIndexMap_.erase(oldState);", "            stateIndexMap_.erase(vtx.getState());")], 'R09n')
 seed('c15-phs-chosen-once-per-call', 'C15', [(PLDC, "            while (!foundSample && *iters < InformedSampler::numIters_)\n            {\n                // Variables\n                // The informed subset of the sample as a vector\n                std::vector<double> informedVector(informedSubSpace_->getDimension());\n                // The random PHS in use for this sample.\n                ProlateHyperspheroidCPtr phsCPtr = randomPhsPtr();\n", "            std::vector<double> informedVector(informedSubSpace_->getDimension());\n            ProlateHyperspheroidCPtr phsCPtr = randomPhsPtr();\n            while (!foundSample && *iters < InformedSampler::numIters_)\n            {\n")], 'R15j')
 seed('c20-spherical-engine-by-value', 'C20', [(RNC, "using variate_generator_t = boost::variate_generator<std::mt19937 *, spherical_dist_t>;", "using variate_generator_t = boost::variate_generator<std::mt19937, spherical_dist_t>;"), (RNC, "std::make_shared<variate_generator_t>(generatorPtr_, *dimVector_.at(dim).first);", "std::make_shared<variate_generator_t>(*generatorPtr_, *dimVector_.at(dim).first);")], 'R20f')
+seed('c17-better-goal-double-snap-swaps', 'C17', [(PSC, "            unsigned int startIndex = start - dists.begin();\n            unsigned int endIndex = end - dists.begin();\n\n            // Snap the random point to the nearest vertex, if within the threshold\n            if (t - (*start) < threshold)  // snap to the starting waypoint\n                endIndex = startIndex;\n            if ((*end) - t < threshold)  // snap to the ending waypoint\n                startIndex = endIndex;", "            const bool snapToStart = t - (*start) < threshold;\n            const bool snapToEnd = (*end) - t < threshold;\n            unsigned int startIndex = (snapToEnd ? end : start) - dists.begin();\n            unsigned int endIndex = (snapToStart ? start : end) - dists.begin();")], 'R17j')
+seed('c17-n-better-goal-snap-else-if', 'C17', [(PSC, "            if (t - (*start) < threshold)  // snap to the starting waypoint\n                endIndex = startIndex;\n            if ((*end) - t < threshold)  // snap to the ending waypoint\n                startIndex = endIndex;", "            if (t - (*start) < threshold)  // snap to the starting waypoint\n                endIndex = startIndex;\n            else if ((*end) - t < threshold)  // snap to the ending waypoint\n                startIndex = endIndex;")], None)
